@@ -3,6 +3,9 @@ use portable_atomic::{AtomicBool, Ordering};
 use std::borrow::Cow;
 use std::sync::{Arc, Condvar, Mutex, MutexGuard, Weak};
 use std::time::Duration;
+#[cfg(indicatif_verif)]
+use crate::verif_clock::Instant;
+#[cfg(not(indicatif_verif))]
 #[cfg(not(target_arch = "wasm32"))]
 use std::time::Instant;
 use std::{fmt, io, thread};
